@@ -66,7 +66,7 @@ pub fn build_c(ctx: &Ctx, static_link: bool) -> Result<PathBuf, String> {
     if static_link {
         cmd.arg(format!("{libdir}/libclockbound.a")).args(["-lpthread", "-ldl", "-lm"]);
     } else {
-        cmd.arg(format!("-L{libdir}")).arg("-lclockbound").arg(format!("-Wl,-rpath,{libdir}")).arg("-rdynamic");
+        cmd.arg(format!("-L{libdir}")).arg("-lclockbound").arg(format!("-Wl,-rpath,{libdir}")).arg("-rdynamic").arg("-lpthread");
     }
     cmd.arg("-o").arg(&out);
     let o = cmd.output().map_err(|e| format!("cannot run cc: {e}"))?;
@@ -496,6 +496,43 @@ fn differential(ctx: &Ctx, bin: &Path, label: &'static str, t: &mut Tally, sampl
             crate::seqmc::engine::close_leaked_fds(&path);
             crate::seqmc::engine::close_leaked_fds(&path_b);
         }
+    }
+    // (f) two contexts, two segments that fail differently (as-of in the future; a drift of 1e9 ppb): what the call
+    // on the first context returned must still describe the first context after the second one has been called
+    {
+        let pa = dir.join("seg-f-a");
+        let pb = dir.join("seg-f-b");
+        let _ = std::fs::remove_file(&pa);
+        let _ = std::fs::remove_file(&pb);
+        let mut wa = ShmWriter::new(&pa).map_err(|e| e.to_string())?;
+        let mut wb = ShmWriter::new(&pb).map_err(|e| e.to_string())?;
+        wa.write(&Rec { as_of_s: 9000, as_of_ns: 0, va_s: 10_000, va_ns: 0, bound: 1000, drift: 1000, reserved: 0, status: 1 }.to_ceb());
+        wb.write(&Rec { as_of_s: 5000, as_of_ns: 0, va_s: 6000, va_ns: 0, bound: 1000, drift: 1_000_000_000, reserved: 0, status: 1 }.to_ceb());
+        for (sa, sb, order) in [(3, 4, "A then B"), (4, 3, "B then A")] {
+            n += 1;
+            if c.ask(&format!("P 3 {}", pa.display()))? != "open ok" || c.ask(&format!("P 4 {}", pb.display()))? != "open ok" {
+                return Err("two-context set-up: clockbound_open failed".into());
+            }
+            let cl = c.ask(&format!("X {sa} {sb} 1700000000 5 5001 0"))?;
+            let _ = c.ask("R 3")?;
+            let _ = c.ask("R 4")?;
+            let ka = format!("{}/0", abi["kind_causality"]);
+            let kb = format!("{}/0", abi["kind_malformed"]);
+            let want = if sa == 3 { format!("x A:{ka} B:{kb}") } else { format!("x A:{kb} B:{ka}") };
+            // the Rust client for reference
+            let r = |p: &Path| rust_now(p, ts_ns(1_700_000_000, 5), ts_ns(5001, 0), (0, -1), &abi);
+            let (ra, rb) = (r(&pa), r(&pb));
+            if !ra.starts_with(&format!("now err {}", abi["kind_causality"])) || !rb.starts_with(&format!("now err {}", abi["kind_malformed"])) {
+                return Err(format!("two-context set-up: the Rust client says {ra} / {rb}"));
+            }
+            if cl != want {
+                t.add("C17:error-of-one-context-changed-by-another", format!("two contexts on two segments ({order}): after both calls the C library's two error results read '{cl}', each context on its own (and the Rust client) gives '{want}'"), json!({"check": "C17", "part": "two failing contexts", "library": label, "order": order, "c": cl, "expected": want}));
+            }
+        }
+        drop(wa);
+        drop(wb);
+        crate::seqmc::engine::close_leaked_fds(&pa);
+        crate::seqmc::engine::close_leaked_fds(&pb);
     }
     // (e) resource accounting: open/close cycles and failed opens leave no descriptor and no mapping behind, in
     // either library ("close deallocates the context", as the header says)
